@@ -109,7 +109,7 @@ struct vf_in {
 	unsigned char backup_read_fails;
 	/* helpers */
 	int run_result, run_ctx_flags;
-	unsigned char run_invalidates, csb_invalidates, csb_clears_master_only;
+	unsigned char run_invalidates, run_sets_changed, csb_invalidates, csb_clears_master_only;
 	int journal_check_rc, journal_run_rc, devsize_rc, bb_rc, quota_rc, orphan_ret, gdt_rc, flush_rc, reset_rc;
 	unsigned char quota_needs_writeout, skip, devsize_busy;
 };
@@ -378,6 +378,7 @@ int e2fsck_run(e2fsck_t ctx)
 	if (!first)
 		return IN.run_result & (E2F_FLAG_ABORT | E2F_FLAG_CANCEL);
 	if (IN.run_invalidates & 1) ctx->fs->flags &= ~EXT2_FLAG_VALID;
+	if (IN.run_sets_changed & 1) ctx->fs->flags |= EXT2_FLAG_CHANGED;	/* in-core changes (bitmaps loaded/marked) can happen in any mode */
 	ctx->flags |= IN.run_ctx_flags & (E2F_FLAG_JOURNAL_INODE | E2F_FLAG_RUN_RETURN | E2F_FLAG_TIME_INSANE | E2F_FLAG_PROBLEMS_FIXED);
 #if RST == 3
 	return IN.run_result & (E2F_FLAG_ABORT | E2F_FLAG_CANCEL | E2F_FLAG_RESTART);
